@@ -258,7 +258,7 @@ def conc_job(job):
             if w[0] > rr: part.violation('C_GetAttributeValue|shared-object|value-from-the-future', 'a read returned the value of a write that had not begun', {'seed': job['seed']})
             if any(o[0] > w[1] and o[1] < rc for o in ws if o is not w): part.violation('C_GetAttributeValue|shared-object|stale-value', 'a read returned a value although another committed write lies strictly between that write and the read', {'seed': job['seed'], 'label': lab.decode(), 'value': val.decode('latin-1')})
         # final state, as seen by every process at its next call and by a fresh process
-        fresh = start(job['paths'], ck, job['cfg'], d, 98); X.append(fresh); S.append(attach(fresh))
+        fresh = start(job['paths'], ck, job['cfg'], d, 98); X.append(fresh); S.append(attach(fresh)); finals = collections.defaultdict(dict)
         for p, x in enumerate(X):
             rvn, hs = x.findall(S[p], {}); labs = collections.Counter(); vals = {}
             for h in hs:
@@ -272,9 +272,12 @@ def conc_job(job):
                 if lab not in destroyed and labs.get(lab, 0) == 0: part.violation(f'final|{who}|committed-object-lost', 'a committed object is missing', {'seed': job['seed'], 'label': lab.decode(), 'proc': p})
             for lab in shared:
                 if labs.get(lab, 0) != 1: part.violation(f'final|{who}|shared-object-count-{labs.get(lab, 0)}', 'a shared object is missing or duplicated', {'seed': job['seed']}); continue
-                ws = writes[lab]; fin = vals[lab].get('CKA_ID')
+                ws = writes[lab]; fin = vals[lab].get('CKA_ID'); finals[lab][p] = fin
                 maximal = [w[2] for w in ws if not any(o[0] > w[1] for o in ws if o is not w)] or [b'init']
                 if fin not in maximal: part.violation(f'final|{who}|shared-object-final-value-not-a-last-write', 'the final value is not the value of a committed write that no other committed write strictly follows', {'seed': job['seed'], 'final': fin, 'candidates': maximal})
+        # nothing is written any more: every process (each at its next call) and the fresh process must read ONE value per object
+        for lab, byp in finals.items():
+            if len(set(byp.values())) > 1: part.violation('final|processes-disagree-on-the-value-of-a-shared-object', 'after all writers have finished, two processes read different values of the same committed object (one of them keeps serving an overwritten value)', {'seed': job['seed'], 'label': lab.decode(), 'values_by_process': {str(k): (v or b'').decode('latin-1') for k, v in byp.items()}, 'fresh_process_is': str(len(X) - 1)})
         nw = sum(len(v) for v in writes.values())
         overlap = sum(1 for lab in shared for a in writes[lab] for b in writes[lab] if a[3] != b[3] and a[0] < b[1] and b[0] < a[1]) // 2
         part.case(('conc', nproc, min(overlap, 5), len(created) > 0, len(destroyed) > 0), nontrivial=nw > 0, sample={'processes': nproc, 'committed_writes': nw, 'overlapping_write_pairs': overlap, 'reads': len(reads), 'created': len(created), 'destroyed': len(destroyed)} if job['seed'] % 4 == 0 else None)
